@@ -224,7 +224,10 @@ fn plant(src: &mut Src) -> Planted {
     let (flo, fhi) = if kind == "InvalidSlice" { (at, at + marker.len() - 1) } else { (paren, paren) };
     let slice_fault = kind == "InvalidSlice";
     let custom_route = src.chance(30);
-    let (pre, post, in_expref): (String, String, bool) = match if custom_route { 15 + src.below(3) } else { src.below(15) } {
+    let (pre, post, in_expref): (String, String, bool) = match if custom_route { 15 + src.below(5) } else { src.below(15) } {
+        // the same two as functions declared with a signature (CustomFunction)
+        18 => ("applyc(&".into(), ", @)".into(), true),
+        19 => ("eachc(&".into(), ", xs)".into(), true),
         // user-registered higher-order functions: `apply` evaluates the reference it is given
         // (Expression::new on the text and runtime of the running search), `each` hands
         // its arguments to the built-in map
@@ -283,6 +286,29 @@ fn custom_search(text: &str, doc: &str) -> ImpOut {
                 None => Ok(Rcvar::new(Variable::Null)),
             }),
         );
+        {
+            use jmespath::functions::{ArgumentType, CustomFunction, Signature};
+            rt.register_function(
+                "applyc",
+                Box::new(CustomFunction::new(
+                    Signature::new(vec![ArgumentType::Expref, ArgumentType::Any], None),
+                    Box::new(|args: &[Rcvar], ctx: &mut Context<'_>| match args.first().map(|a| &**a) {
+                        Some(Variable::Expref(ast)) => jmespath::Expression::new(ctx.expression, ast.clone(), ctx.runtime).search(args.get(1).cloned().unwrap_or_else(|| Rcvar::new(Variable::Null))),
+                        _ => Ok(Rcvar::new(Variable::Null)),
+                    }),
+                )),
+            );
+            rt.register_function(
+                "eachc",
+                Box::new(CustomFunction::new(
+                    Signature::new(vec![ArgumentType::Expref, ArgumentType::Array], None),
+                    Box::new(|args: &[Rcvar], ctx: &mut Context<'_>| match ctx.runtime.get_function("map") {
+                        Some(f) => f.evaluate(args, ctx),
+                        None => Ok(Rcvar::new(Variable::Null)),
+                    }),
+                )),
+            );
+        }
         let e = match rt.compile(text) {
             Ok(e) => e,
             Err(err) => return ImpOut::CompileErr(crate::imp::classify(&err)),
